@@ -10,7 +10,7 @@ for patch in mutants/$1*.diff seeded/$1*/patch.diff; do
   [ -f "$patch" ] || continue
   case "$patch" in mutants/*) name=$(basename $patch .diff);; *) name=seeded-$(basename $(dirname $patch));; esac
   id=$(echo "$name" | sed -E 's/^(seeded-)?(C[0-9]+).*/\2/')
-  git -C /repo apply "$patch" 2>/dev/null || { echo "$name: patch does not apply"; continue; }
+  git -C /repo apply "/verif/$patch" 2>/dev/null || { echo "$name: patch does not apply"; continue; }
   suite=$(cd /repo && cargo nextest run --workspace --no-fail-fast --tool-config-file pb:/w/lib/nextest.toml --profile pb --test-threads 8 --offline 2>&1 | grep -E "Summary" | sed -E 's/.*Summary[^0-9]*\[[^]]*\] *//')
   res=$(./check $id 2>&1); rc=$?
   kinds=$(echo "$res" | grep -E "^  kind=" | sed -E 's/^  kind=([^ ]+) class=([^ ]+).*/\1@\2/' | sort -u | head -4 | tr '\n' ' ')
